@@ -139,6 +139,17 @@ def replay_sequences(max_lines: int, alphabet: str = "Kinds", prefix: str = "NoP
     return n, bad, res, behs
 
 
+def termination(max_lines: int, timeout=3000):
+    """Liveness on the small-step parser: under weak fairness every parse of every kind sequence <= max_lines ends (no state constraint)."""
+    with Scratch("live") as sc:
+        sc.write("MC_L0_live.cfg", f"SPECIFICATION FairSpec\nCONSTANT MaxLines = {max_lines}\nCONSTANT Alphabet <- Kinds\nCONSTANT Prefix <- NoPrefix\nCONSTANT MaxErrs = 99\n"
+                 "PROPERTY Termination\nVIEW View\nCHECK_DEADLOCK FALSE\n")
+        res = run_tlc(sc, "MC_L0", cfg="MC_L0_live.cfg", timeout=timeout)
+    if "Parsing or semantic analysis failed" in res.out or (not res.finished and not res.errors):
+        raise MachineryError("MC_L0 (liveness) did not complete:\n" + "\n".join(res.out.splitlines()[-40:]))
+    return res
+
+
 def drive_transitions(dump, pairs):
     """Every (spec position, kind, oracle) through Parser.match_token; pairs: spec state (json) -> python state number."""
     by = {json.dumps(e["state"]): e for e in dump["states"]}
